@@ -17,7 +17,10 @@ Judge(o) ==
     IN \A i \in 1..Len(o.uses) :
         LET u == o.uses[i][1]
             reported == ToSet(o.uses[i][2])
-            v == UseVerdict2(o.prog, rs, rl, u, reported)
+            v0 == UseVerdict2(o.prog, rs, rl, u, reported)
+            \* a known deviation excuses a failure only when the model of the deviating mechanism (Scopes.tla)
+            \* reproduces the observed report exactly; any other failure in such a program is a violation
+            v == IF v0 \notin {"ok", "viol"} /\ reported # ReportedFrom(us, u) THEN "viol" ELSE v0
         IN /\ Chk(v = "ok", o.tid, IF v = "viol" THEN "viol:ReachingDefinitions" ELSE v)
            /\ Chk(reported = ReportedFrom(us, u), o.tid, "drift:reported")
 
